@@ -22,6 +22,9 @@ pub enum Val {
     Arr(Vec<Val>),
     Dict(Dict),
     Ref(u32, u16),
+    /// token text written verbatim (hostile numbers that do not fit the other variants);
+    /// "@xref" is replaced by the offset of the section being written
+    Raw(String),
 }
 
 impl Val {
@@ -63,6 +66,7 @@ impl Val {
             Val::Arr(a) => J::Array(a.iter().map(|v| v.to_json()).collect()),
             Val::Dict(d) => json!({ "d": dict_to_json(d) }),
             Val::Ref(n, g) => json!({ "ref": [n, g] }),
+            Val::Raw(t) => json!({ "raw": t }),
         }
     }
     pub fn from_json(j: &J) -> Option<Val> {
@@ -81,6 +85,8 @@ impl Val {
                     Val::Str(unhex(s.as_str()?)?)
                 } else if let Some(d) = o.get("d") {
                     Val::Dict(dict_from_json(d)?)
+                } else if let Some(t) = o.get("raw") {
+                    Val::Raw(t.as_str()?.to_string())
                 } else if let Some(r) = o.get("ref") {
                     Val::Ref(r.get(0)?.as_u64()? as u32, r.get(1)?.as_u64()? as u16)
                 } else {
@@ -140,6 +146,9 @@ pub enum Slot {
     Compressed { stm: u32, val: Val },
     /// cross-reference entry "free", `gen` is the generation a reuse would carry
     Free { gen: u16 },
+    /// a type-2 entry pointing at (object stream, index) without the writer building that stream
+    /// (hostile templates write the object stream themselves as an ordinary stream object)
+    RawCompressed { stm: u32, idx: u32 },
 }
 
 #[derive(Clone, Copy, Debug, PartialEq)]
@@ -176,6 +185,9 @@ pub struct Revision {
     pub root: Val,
     /// extra trailer entries (e.g. /Info, /ID, marker keys)
     pub trailer: Dict,
+    /// entries that replace (or are added to) the generated trailer / xref-stream dictionary
+    /// entries of the same key (hostile /Size, /Prev, /W, /Index, ...)
+    pub overrides: Dict,
 }
 
 #[derive(Clone, Debug, PartialEq)]
@@ -245,6 +257,7 @@ pub fn write_val(out: &mut Vec<u8>, v: &Val) {
         }
         Val::Dict(d) => write_dict(out, d),
         Val::Ref(n, g) => out.extend_from_slice(format!("{} {} R", n, g).as_bytes()),
+        Val::Raw(t) => out.extend_from_slice(t.as_bytes()),
     }
 }
 
@@ -367,6 +380,9 @@ pub fn write_doc(spec: &DocSpec) -> Written {
                 Slot::Free { gen } => {
                     entries.insert(num, Entry::Free { next: 0, gen: *gen });
                 }
+                Slot::RawCompressed { stm, idx } => {
+                    entries.insert(num, Entry::Compressed { stm: *stm, idx: *idx as usize });
+                }
                 Slot::Compressed { .. } => {}
             }
         }
@@ -424,6 +440,22 @@ pub fn write_doc(spec: &DocSpec) -> Written {
             tr.push((k.clone(), v.clone()));
         }
         let xref_off = out.len() - base;
+        let subst = |v: &Val| -> Val {
+            match v {
+                Val::Raw(t) if t == "@xref" => Val::Int(xref_off as i64),
+                other => other.clone(),
+            }
+        };
+        let apply_overrides = |d: &mut Dict| {
+            for (k, v) in &rev.overrides {
+                let v = subst(v);
+                if let Some(slot) = d.iter_mut().find(|(kk, _)| kk == k) {
+                    slot.1 = v;
+                } else {
+                    d.push((k.clone(), v));
+                }
+            }
+        };
         match &rev.style {
             XrefStyle::Classic { cuts } => {
                 assert!(
@@ -443,6 +475,7 @@ pub fn write_doc(spec: &DocSpec) -> Written {
                     }
                 }
                 out.extend_from_slice(b"trailer\n");
+                apply_overrides(&mut tr);
                 write_dict(&mut out, &tr);
                 out.push(b'\n');
             }
@@ -479,6 +512,7 @@ pub fn write_doc(spec: &DocSpec) -> Written {
                 if let Some(f) = fname {
                     d.push(("Filter".into(), Val::name(f)));
                 }
+                apply_overrides(&mut d);
                 out.extend_from_slice(format!("{} 0 obj\n", num).as_bytes());
                 write_stream_obj(&mut out, &d, &enc, None);
                 out.extend_from_slice(b"\nendobj\n");
@@ -509,6 +543,7 @@ pub fn model_after(spec: &DocSpec, k: usize) -> BTreeMap<u32, Latest> {
             let l = match s {
                 Slot::Direct { gen, body } => Latest::Direct { gen: *gen, body: body.clone() },
                 Slot::Compressed { val, .. } => Latest::Compressed(val.clone()),
+                Slot::RawCompressed { .. } => Latest::Compressed(Val::Null),
                 Slot::Free { .. } => Latest::Free,
             };
             m.insert(n, l);
@@ -791,6 +826,7 @@ impl DocSpec {
                         Slot::Direct { gen, body } => json!({ "num": n, "direct": { "gen": gen, "body": body_to_json(body) } }),
                         Slot::Compressed { stm, val } => json!({ "num": n, "compressed": { "stm": stm, "val": val.to_json() } }),
                         Slot::Free { gen } => json!({ "num": n, "free": { "gen": gen } }),
+                        Slot::RawCompressed { stm, idx } => json!({ "num": n, "raw_compressed": { "stm": stm, "idx": idx } }),
                     })
                     .collect();
                 let objstms: Vec<J> = r.objstms.iter().map(|o| json!({ "num": o.num, "filter": filter_name(o.filter), "trailing_ws": o.trailing_ws })).collect();
@@ -798,7 +834,7 @@ impl DocSpec {
                     XrefStyle::Classic { cuts } => json!({ "classic": { "cuts": cuts } }),
                     XrefStyle::Stream { num, w, cuts, filter } => json!({ "stream": { "num": num, "w": w, "cuts": cuts, "filter": filter_name(*filter) } }),
                 };
-                json!({ "slots": slots, "objstms": objstms, "style": style, "size": r.size, "root": r.root.to_json(), "trailer": dict_to_json(&r.trailer) })
+                json!({ "slots": slots, "objstms": objstms, "style": style, "size": r.size, "root": r.root.to_json(), "trailer": dict_to_json(&r.trailer), "overrides": dict_to_json(&r.overrides) })
             })
             .collect();
         json!({ "junk": hex(&self.junk), "revisions": revs })
@@ -813,6 +849,8 @@ impl DocSpec {
                     Slot::Direct { gen: d.get("gen")?.as_u64()? as u16, body: body_from_json(d.get("body")?)? }
                 } else if let Some(c) = s.get("compressed") {
                     Slot::Compressed { stm: c.get("stm")?.as_u64()? as u32, val: Val::from_json(c.get("val")?)? }
+                } else if let Some(c) = s.get("raw_compressed") {
+                    Slot::RawCompressed { stm: c.get("stm")?.as_u64()? as u32, idx: c.get("idx")?.as_u64()? as u32 }
                 } else {
                     Slot::Free { gen: s.get("free")?.get("gen")?.as_u64()? as u16 }
                 };
@@ -843,6 +881,7 @@ impl DocSpec {
                 size: r.get("size")?.as_u64()? as u32,
                 root: Val::from_json(r.get("root")?)?,
                 trailer: dict_from_json(r.get("trailer")?)?,
+                overrides: r.get("overrides").and_then(dict_from_json).unwrap_or_default(),
             });
         }
         Some(DocSpec { junk: unhex(j.get("junk")?.as_str()?)?, revisions })
@@ -925,7 +964,7 @@ impl Builder {
         };
         DocSpec {
             junk: layout.junk.clone(),
-            revisions: vec![Revision { slots, objstms, style, size: next, root: Val::r(root), trailer: layout.trailer.clone() }],
+            revisions: vec![Revision { slots, objstms, style, size: next, root: Val::r(root), trailer: layout.trailer.clone(), overrides: vec![] }],
         }
     }
 }
